@@ -459,6 +459,16 @@ func (m *objectCacheStorageMiddleware) DeleteObject(ctx context.Context, bucketN
 	return result, nil
 }
 
+// TransitionObjectStorageClass changes the storage class reported by HeadObject/GetObject, so the cached
+// entries of the key must not outlive it.
+func (m *objectCacheStorageMiddleware) TransitionObjectStorageClass(ctx context.Context, bucketName storage.BucketName, key storage.ObjectKey, targetStorageClass string, opts *storage.TransitionObjectStorageClassOptions) error {
+	if err := m.Next.TransitionObjectStorageClass(ctx, bucketName, key, targetStorageClass, opts); err != nil {
+		return err
+	}
+	m.invalidateObjectCaches(ctx, bucketName, key)
+	return nil
+}
+
 func (m *objectCacheStorageMiddleware) DeleteObjects(ctx context.Context, bucketName storage.BucketName, entries []storage.DeleteObjectsInputEntry) (*storage.DeleteObjectsResult, error) {
 	result, err := m.Next.DeleteObjects(ctx, bucketName, entries)
 	if err != nil {
